@@ -421,9 +421,11 @@ impl Typer {
             _ => self.infer_expr(genv, local_env, diagnostics, e),
         };
 
+        // Record the expression at its own type: a coercion to `dyn` is recorded
+        // separately and wraps the node that is rebuilt from these tables.
+        self.record_expr_result(e, &expr_tast);
         let expr_tast = self.coerce_to_expected_dyn(genv, diagnostics, e, expr_tast, expected);
         self.push_constraint(Constraint::TypeEqual(expr_tast.get_ty(), expected.clone()));
-        self.record_expr_result(e, &expr_tast);
         expr_tast
     }
 
